@@ -17,6 +17,14 @@
 //!         custom codec: writes its magic, then every byte XOR key; its reader checks the magic)
 //!         | ["rt", w, r, name, records, shards] | ["raw", r, name, origin, hdr]
 //!         out = ["proc", [step output..]] | ["abort"]
+//!   "big" in  = [gen, [[w, r, written name, read name, shards], ...]]   (the SIZE dimension)
+//!         gen = [mode, n, klen, seed, k0len]: payload by generator parameters (see `Gen`)
+//!         out = ["big", [[tag, sig(stored), stored len, plain len, stored == plain,
+//!                         first 16 stored bytes, first 16 plain bytes, digest outcome], ...]]
+//!   "rewrite" in = [w, r, name, genA, genB, shards]: A then B written to the same name
+//!         out = [tag, sig(stored after B), len after A, len after B, len of B in a fresh store,
+//!                stored after B == fresh, first 16 bytes after B, digest outcome]
+//!   digest outcome = ["ok", record count, 61-bit digest] | ["err"] | ["panic"]
 //!   read outcome = ["ok", records] | ["err"] | ["panic"];  records = [[k, v], ...]
 //! Entry-point numbering = constructor order of writer_ep / reader_ep in IO/Compression.v.
 use ibv::{Emitter, SplitMix64, Tier, drive};
@@ -491,6 +499,10 @@ fn ro_digest(ro: &Ro) -> Value {
         Ro::Bad => json!(["bad-reader"]),
     }
 }
+/// results of large "big" cases computed ahead of emission, several cases at a time (the cases
+/// themselves are emitted one after the other); key = the case input as JSON text
+static BIG_CACHE: std::sync::Mutex<Option<std::collections::HashMap<String, Value>>> =
+    std::sync::Mutex::new(None);
 const PLAIN_NAME: &str = "plain";
 const PLAIN_KEY: &str = "zz/plain";
 
@@ -743,6 +755,13 @@ fn run_inner(kind: &str, input: &Value) -> Value {
             };
             if input.as_array().map(Vec::len) != Some(2) {
                 return json!(["invalid"]);
+            }
+            if let Some(v) = BIG_CACHE
+                .lock()
+                .ok()
+                .and_then(|mut c| c.as_mut().and_then(|m| m.remove(&input.to_string())))
+            {
+                return v;
             }
             run_big(&g, entries)
         }
@@ -1379,6 +1398,7 @@ fn generate(seed: u64, tier: Tier, em: &mut Emitter) {
     if thorough {
         big_targets.extend([(1 << 23) + 1, (1 << 24) - 1]);
     }
+    let mut large: Vec<(Gen, Vec<Value>)> = Vec::new();
     let jw = [W_JSONL_VEC, W_JSONL_PAR, W_PC_JSONL, W_PC_JSONL_PAR];
     let cw = [W_CSV_VEC, W_CSV, W_CSV_PAR, W_PC_CSV, W_PC_CSV_PAR];
     for (ti, &target) in big_targets.iter().enumerate() {
@@ -1427,8 +1447,35 @@ fn generate(seed: u64, tier: Tier, em: &mut Emitter) {
                 if b_no % 4 == 0 {
                     entries.push(json!([W_PARQUET_VEC, R_PARQUET_VEC, "s.parquet", "s.parquet", null]));
                 }
-                emit_big(em, &g, entries, &["size", "large"]);
+                large.push((g, entries));
                 b_no += 1;
+            }
+        }
+    }
+    // run the large cases six at a time (each is parallel inside, but its critical path - the
+    // slowest single write, then the slowest single read - leaves most cores idle), then emit
+    {
+        use rayon::prelude::*;
+        for chunk in large.chunks(6) {
+            let outs: Vec<(String, Option<Value>)> = chunk
+                .par_iter()
+                .map(|(g, entries)| {
+                    let key = json!([g.json(), entries]).to_string();
+                    let out = catch_unwind(AssertUnwindSafe(|| run_big(g, entries))).ok();
+                    (key, out)
+                })
+                .collect();
+            {
+                let mut c = BIG_CACHE.lock().unwrap();
+                let m = c.get_or_insert_with(Default::default);
+                for (k, v) in outs {
+                    if let Some(v) = v {
+                        m.insert(k, v);
+                    }
+                }
+            }
+            for (g, entries) in chunk {
+                emit_big(em, g, entries.clone(), &["size", "large"]);
             }
         }
     }
